@@ -12,7 +12,7 @@
      Err 1315        ensure! link is contiguous with the path
      Err 1316        extract_speed_set: no speed_set and train type not in speed_sets
      Err 1390        OUTSIDE THE MODELLED DOMAIN: heading difference beyond (-REV-REV/2, REV+REV/2)
-                     (f64 [%] is modelled on that range only; validated headings lie in [0,REV))
+                     (the f64 remainder is modelled on that range only; validated headings lie in [0,REV))
    Not modelled: [district_id] of catenary limits (a string that is cloned; compared on the Rust
    side), [osm_id], [idx_flip], [link_idxs_lockout] (unused by [extend]); the debug_assert!s of
    insert_speed. *)
@@ -162,9 +162,14 @@ Definition ft_len : F := nlit 3048 (-4).                          (* uc::FT *)
 Definition half_rev : F := rev_angle / nofZ 2.
 Definition one_degree : F := deg_angle / (ft_len * nofZ 100).
 
-(* f64 [x % REV] (sign of the dividend) for x in (-REV, 2 REV) *)
+(* f64 [x.rem_euclid(REV)] for x in (-REV, 2 REV):  r = x % REV (sign of the dividend; exact);
+   if r < 0 { r + REV } else { r }.
+   NOTE: this is the FIXED behaviour (repo_patches/C06-heading-wrap.diff).  The unchanged code uses
+   [x % REV] alone, which leaves a heading change below -pi unwrapped (350 deg -> 10 deg counts as
+   a 340 deg turn); the C06 check reports that as a violation on the unchanged tree. *)
 Definition fmod_rev (x : F) : res F :=
-  if x <? rev_angle then (if (- rev_angle) <? x then Ok x else Err 1390)
+  if x <? rev_angle then
+    (if (- rev_angle) <? x then Ok (if x <? n0 then x + rev_angle else x) else Err 1390)
   else if x <? rev_angle + rev_angle then Ok (x - rev_angle) else Err 1390.
 
 (* the curve resistance coefficient of one heading window *)
